@@ -22,6 +22,7 @@ import (
 	"encoding/pem"
 	"fmt"
 	"io"
+	"math"
 	"net/http"
 	"net/http/httptest"
 	"os"
@@ -35,6 +36,7 @@ import (
 	"time"
 
 	"github.com/golang-jwt/jwt/v4"
+	"github.com/gotid/god/api/chain"
 	kit "github.com/gotid/god/internal/verifkit"
 	"github.com/gotid/god/lib/logx"
 	"github.com/gotid/god/lib/timex"
@@ -136,14 +138,38 @@ func tokClass(tok kit.M) string {
 		kit.Str(tok["time"]), kit.Str(tok["claims"]))
 }
 
-func c04Server() (*Server, error) {
-	return NewServer(Config{Host: "127.0.0.1", Port: 0})
+// c04Server builds a server the way the scenario says: "default" (built-in chain), "chain"
+// (api.WithChain with a custom chain of one pass-through middleware), "use" (built-in chain plus
+// a Server.Use middleware), "chain+use".
+func c04Server(kind string) (*Server, error) {
+	pass := func(next http.Handler) http.Handler {
+		return http.HandlerFunc(func(w http.ResponseWriter, r *http.Request) { next.ServeHTTP(w, r) })
+	}
+	var opts []Option
+	switch kind {
+	case "default", "use", "":
+	case "chain", "chain+use":
+		opts = append(opts, WithChain(chain.New(pass)))
+	default:
+		return nil, fmt.Errorf("unknown server construction %q", kind)
+	}
+	srv, err := NewServer(Config{Host: "127.0.0.1", Port: 0}, opts...)
+	if err != nil {
+		return nil, err
+	}
+	if kind == "use" || kind == "chain+use" {
+		srv.Use(func(next http.HandlerFunc) http.HandlerFunc {
+			return func(w http.ResponseWriter, r *http.Request) { next(w, r) }
+		})
+	}
+	return srv, nil
 }
 
 func runJwtCase(c kit.Case, clock *kit.Clock) (v kit.Verdict) {
 	v = kit.Verdict{Case: c.Index, OK: true}
 	cfg := kit.Str(c.Steps[0]["cfg"])
-	srv, err := c04Server()
+	server := kit.Str(c.Steps[0]["server"])
+	srv, err := c04Server(server)
 	if err != nil {
 		return c04Infra(c, err.Error())
 	}
@@ -203,7 +229,10 @@ func runJwtCase(c kit.Case, clock *kit.Clock) (v kit.Verdict) {
 		fail := func(what, msg string) kit.Verdict {
 			v.OK, v.Step = false, i+1
 			v.Key = "C04:jwt:" + what
-			v.Msg = fmt.Sprintf("cfg=%s request #%d token %s: %s (handler ran %d times, status %d)", cfg, i+1, tokClass(tok), msg, ran, rec.Code)
+			if server != "default" && server != "" {
+				v.Key += ":server-" + server
+			}
+			v.Msg = fmt.Sprintf("server=%s cfg=%s request #%d token %s: %s (handler ran %d times, status %d)", server, cfg, i+1, tokClass(tok), msg, ran, rec.Code)
 			return v
 		}
 		switch {
@@ -266,7 +295,7 @@ func TestVerifC04JwtConc(t *testing.T) {
 		t.Fatal("no cases")
 	}
 	cfg := kit.Str(cases[0].Steps[0]["cfg"])
-	srv, err := c04Server()
+	srv, err := c04Server(kit.Str(cases[0].Steps[0]["server"]))
 	if err != nil {
 		t.Fatal(err)
 	}
@@ -391,6 +420,7 @@ func TestVerifC04JwtConc(t *testing.T) {
 // ---------------------------------------------------------------- signature
 
 const c04Tol = 3 // seconds of tolerance configured for the signed routes
+const c04Half = 1 // "half the tolerance" in whole seconds
 
 type c04Keys struct {
 	priv  map[string]*rsa.PrivateKey // fingerprint -> key
@@ -428,8 +458,8 @@ func (s *c04SigServer) close() {
 	}
 }
 
-func newC04SigServer(keys *c04Keys) (*c04SigServer, error) {
-	srv, err := c04Server()
+func newC04SigServer(keys *c04Keys, kind string) (*c04SigServer, error) {
+	srv, err := c04Server(kind)
 	if err != nil {
 		return nil, err
 	}
@@ -474,10 +504,19 @@ func c04Secret(pub *rsa.PublicKey, key []byte, ts string) (string, error) {
 	return base64.StdEncoding.EncodeToString(enc), nil
 }
 
-func runSigCase(c kit.Case, keys *c04Keys, s *c04SigServer) (v kit.Verdict) {
+func runSigCase(c kit.Case, keys *c04Keys, servers map[string]*c04SigServer) (v kit.Verdict) {
 	v = kit.Verdict{Case: c.Index, OK: true}
 	st := c.Steps[0]
 	rq := st["req"].(map[string]any)
+	server := kit.Str(rq["server"])
+	s := servers[server]
+	if s == nil {
+		var err error
+		if s, err = newC04SigServer(keys, server); err != nil {
+			return c04Infra(c, err.Error())
+		}
+		servers[server] = s
+	}
 	tam := map[string]bool{}
 	var tamList []string
 	for _, t := range kit.List(rq["tamper"]) {
@@ -509,6 +548,33 @@ func runSigCase(c kit.Case, keys *c04Keys, s *c04SigServer) (v kit.Verdict) {
 			ts = strconv.FormatInt(t0-3600, 10)
 		case "garbage":
 			ts = "17zz"
+		// extremes a decimal int64 can carry (h = half the tolerance, at least one second)
+		case "+2^55":
+			ts = strconv.FormatInt(t0+1<<55, 10)
+		case "-2^55":
+			ts = strconv.FormatInt(t0-1<<55, 10)
+		case "+2^55+h":
+			ts = strconv.FormatInt(t0+1<<55+c04Half, 10)
+		case "+2^55-h":
+			ts = strconv.FormatInt(t0+1<<55-c04Half, 10)
+		case "-2^55+h":
+			ts = strconv.FormatInt(t0-1<<55+c04Half, 10)
+		case "-2^55-h":
+			ts = strconv.FormatInt(t0-1<<55-c04Half, 10)
+		case "+2^56":
+			ts = strconv.FormatInt(t0+1<<56, 10)
+		case "-2^56":
+			ts = strconv.FormatInt(t0-1<<56, 10)
+		case "+2^62":
+			ts = strconv.FormatInt(t0+1<<62, 10)
+		case "-2^62":
+			ts = strconv.FormatInt(t0-1<<62, 10)
+		case "zero":
+			ts = "0"
+		case "maxint":
+			ts = strconv.FormatInt(math.MaxInt64, 10)
+		case "minint":
+			ts = strconv.FormatInt(math.MinInt64, 10)
 		default:
 			return c04Infra(c, "unknown ts class "+off)
 		}
@@ -656,6 +722,9 @@ func runSigCase(c kit.Case, keys *c04Keys, s *c04SigServer) (v kit.Verdict) {
 	if what != "" && kit.Str(rq["via"]) != "sized" {
 		what += ":body-" + kit.Str(rq["via"])
 	}
+	if what != "" && server != "default" {
+		what += ":server-" + server
+	}
 	if what != "" {
 		v.OK = false
 		v.Key = "C04:sig:" + what
@@ -681,7 +750,12 @@ func TestVerifC04Api(t *testing.T) {
 	timex.SetVerifClock(clock.Now)
 	defer timex.SetVerifClock(nil)
 	var keys *c04Keys
-	var sigSrv *c04SigServer
+	sigServers := map[string]*c04SigServer{}
+	defer func() {
+		for _, s := range sigServers {
+			s.close()
+		}
+	}()
 	shard, shards := kit.EnvInt("VERIF_SHARD", 0), kit.EnvInt("VERIF_SHARDS", 1)
 	for _, c := range cases {
 		if c.Index%shards != shard || len(c.Steps) == 0 {
@@ -700,12 +774,8 @@ func TestVerifC04Api(t *testing.T) {
 				if keys, err = newC04Keys(dir); err != nil {
 					t.Fatal(err)
 				}
-				if sigSrv, err = newC04SigServer(keys); err != nil {
-					t.Fatal(err)
-				}
-				defer sigSrv.close()
 			}
-			rep.Put(runSigCase(c, keys, sigSrv))
+			rep.Put(runSigCase(c, keys, sigServers))
 		default:
 			rep.Put(c04Infra(c, "unknown case kind "+kit.Canon(c.Steps[0])))
 		}
